@@ -9,8 +9,6 @@ NOT_APPLICABLE = {
            'arbitrary crystals and rates (the correction term is a numerical solve); no construct makes them true by '
            'shape, so static analysis cannot decide them',
     'C05': 'a variational inequality between two numerical evaluations; nothing structural in the source corresponds to it',
-    'C07': 'equality of numerical tensors between two differently sized calculators; only the back-fill ordering '
-           '(checked under C15) and the lock-step pruning (C26) are structural',
     'C08': 'numerical agreement of two algorithms and finiteness at extreme rates: quantifies over floating-point values',
     'C09': 'numerical invariance under re-description of the cell; reduction and centering are numerical searches',
     'C12': 'eigen-decomposition identities (sum rule, positive semidefinite loss tensors) of computed numbers',
@@ -24,6 +22,18 @@ NOT_APPLICABLE = {
 
 # id -> (technique, level text, level note, design ref)
 CLAIMS = {
+    'C07': ('linear-form comparison of the two star-set ranges, membership / exchange-symmetry shape of the omega1 pruning '
+            'predicate, lock-step lint of the three parallel lists, data-flow rules for the LIMB back-fill (coverage of every '
+            'kinetic star, symmetric end-state combination, reference classes by the balance engine on the normal form), '
+            'statement-order rule in tags2preene, memoryless-setter analysis of generate',
+            'Static, exhaustive over VacancyMediated.generate / makeLIMBpreene / tags2preene: decides that the kinetic range is '
+            'the thermodynamic range plus one shell, that the outer shell is found by membership and an omega1 class is '
+            'pruned only when both stars are outer, that the back-fill gives every kinetic star the isolated-solute term and '
+            'only thermodynamic stars the interaction, symmetrically in the two end states and in the documented reference '
+            'class, that user data for states are read before and for omega1/omega2 after the back-fill, and that generate '
+            'keeps nothing from the previous range. Each is a necessary condition of range independence; the numerical '
+            'equality of the tensors of two calculators is NOT decided.',
+            'trusts CPython ast; reference-class table of the balance engine (shared with C04)', 'DESIGN.md §4 C07'),
     'C16': ('override/reachability analysis over the Taylor2D method-resolution order, path-specialised may-alias purity analysis '
             '(inplace=False), sibling predicate agreement of the truncation branches, class-table owner lint, array-valued '
             'accumulation lint',
